@@ -43,6 +43,7 @@ func replayOverlayPkg(repo, pkgPattern string, harnessFiles []string, outDir, pr
 	pkgName := ""
 	var harnessFuncs []string
 	cuts := map[string]bool{}
+	nativeForeign := map[string]bool{}
 	for _, h := range harnessFiles {
 		src, err := os.ReadFile(h)
 		if err != nil {
@@ -53,6 +54,14 @@ func replayOverlayPkg(repo, pkgPattern string, harnessFiles []string, outDir, pr
 			return nil, nil, err
 		}
 		pkgName = f.Name.Name
+		// opt-in for call-site rewriting of FOREIGN cuts: a harness line `// verif:native-cut <pkg>_<Func>`
+		for _, line := range strings.Split(string(src), "\n") {
+			if rest, ok := strings.CutPrefix(strings.TrimSpace(line), "// verif:native-cut "); ok {
+				for _, k := range strings.Fields(rest) {
+					nativeForeign[k] = true
+				}
+			}
+		}
 		for _, d := range f.Decls {
 			if fd, ok := d.(*ast.FuncDecl); ok && fd.Recv == nil {
 				if strings.HasPrefix(fd.Name.Name, "VerifHarness_") && fd.Type.Params.NumFields() == 0 {
@@ -201,6 +210,43 @@ func replayOverlayPkg(repo, pkgPattern string, harnessFiles []string, outDir, pr
 			fd.Name = ast.NewIdent(fd.Name.Name + "__verifOrig")
 			extra = append(extra, w)
 		}
+		// foreign cuts: a call `pkg.Func(...)` in this package's source, where pkg is an imported package and the harness
+		// declares verifStub_<pkg>_<Func>, is redirected to the stub, so that the native replay follows the same cut as
+		// the symbolic run (only direct calls through the import name are rewritten; method cuts are not). Opt-in per cut
+		// (`// verif:native-cut <pkg>_<Func>` in the harness), because without it the real foreign function runs natively.
+		imports := map[string]bool{}
+		for _, im := range f.Imports {
+			ip := strings.Trim(im.Path.Value, "\"")
+			nm := ip[strings.LastIndex(ip, "/")+1:]
+			if im.Name != nil {
+				nm = im.Name.Name
+			}
+			imports[nm] = true
+		}
+		keepAlive := map[string]string{}
+		ast.Inspect(f, func(n ast.Node) bool {
+			ce, ok := n.(*ast.CallExpr)
+			if !ok {
+				return true
+			}
+			se, ok := ce.Fun.(*ast.SelectorExpr)
+			if !ok {
+				return true
+			}
+			id, ok := se.X.(*ast.Ident)
+			if !ok || !imports[id.Name] || id.Obj != nil { // id.Obj != nil: a local object shadows the import name
+				return true
+			}
+			key := id.Name + "_" + se.Sel.Name
+			if !cuts[key] || !nativeForeign[key] {
+				return true
+			}
+			keepAlive[key] = id.Name + "." + se.Sel.Name
+			ce.Fun = ast.NewIdent("verifStub_" + key)
+			applied[key] = true
+			changed = true
+			return true
+		})
 		if !changed {
 			continue
 		}
@@ -213,6 +259,9 @@ func replayOverlayPkg(repo, pkgPattern string, harnessFiles []string, outDir, pr
 			if err := printer.Fprint(&buf, token.NewFileSet(), w); err != nil {
 				return nil, nil, err
 			}
+		}
+		for _, ref := range keepAlive {
+			buf.WriteString("\n\nvar _ = " + ref) // keeps the import used
 		}
 		buf.WriteString("\n")
 		dst := filepath.Join(outDir, pre+"cut_"+name)
